@@ -18,6 +18,7 @@ Builds:         plain (dict / list), commented (CommentedMap / CommentedSeq),
                 yaml (rendered as YAML text and loaded by load_playbook_yaml)
 """
 import binascii
+import hashlib
 import json
 import logging
 import os
@@ -252,11 +253,14 @@ def revocation_yaml(hexes, rng):
     lines = ["- name: revocation list", "  timestamp: 1", "  vars:",
              "    insights_signature_exclude: /vars/insights_signature", "    insights_signature: aaaa",
              "  revoked_playbooks:"]
+    # entry names: all different, all the same, or drawn from two names (entries may share a name)
+    style = rng.choice(["distinct", "same", "same", "two"])
     for i, h in enumerate(hexes):
+        name = {"distinct": "r%d" % i, "same": "revoked play", "two": "r%d" % rng.randint(0, 1)}[style]
         shown = hex_form(h, rng)
         if bytes(bytearray.fromhex(shown)) != binascii.unhexlify(h):
             raise RuntimeError("R4: rendered revocation entry does not denote the digest")
-        lines += ["    - name: r%d" % i, '      hash: "%s"' % shown]
+        lines += ["    - name: %s" % name, '      hash: "%s"' % shown]
     if not hexes:
         lines[-1] = "  revoked_playbooks: []"
     return ("\n".join(lines) + "\n").encode("ascii")
@@ -329,14 +333,21 @@ def observe(node, how, via, revoked=(), rng=None):
 # seeded random plays beyond TLC's bounds, with single edits
 # --------------------------------------------------------------------------
 
-ALPHA = ["a", "b", "n", "t", "1", "'", '"', "\\", ",", "(", ")", " ", "\n", "[", "]", ":", "/", "#", "\t", "{", "}"]
-WORDS = ["True", "None", "ordereddict", "1", "", "a', 'b", "', ", "')", "('", "hosts", "vars"]
+ALPHA = ["a", "b", "n", "t", "x", "0", "f", "1", "'", '"', "\\", ",", "(", ")", " ", "\n", "[", "]", ":", "/", "#", "\t", "{", "}"]
+WORDS = ["\\x10", "True", "None", "ordereddict", "1", "", "a', 'b", "', ", "')", "('", "hosts", "vars"]
+
+
+CONTROL = ["\x01", "\x10", "\x1f", "\x07", "\x7f", "\x00", "\x1b", "\r"]
 
 
 def rstr(rng, maxlen=6):
     if rng.random() < 0.15:
         return rng.choice(WORDS)
-    return "".join(rng.choice(ALPHA) for _ in range(rng.randint(0, maxlen)))
+    s = "".join(rng.choice(ALPHA) for _ in range(rng.randint(0, maxlen)))
+    if rng.random() < 0.06:          # few strings carry a control character (they cannot take the YAML route)
+        k = rng.randint(0, len(s))
+        s = s[:k] + rng.choice(CONTROL) + rng.choice(["", "0", "f", "1"]) + s[k:]
+    return s
 
 
 def rkey(rng):
@@ -610,9 +621,11 @@ def main():
             digests.append(own)
         if every and i % every == 0:
             other = [d for d in digests[-6:] if d != own][:2]
+            while len(other) < 2:       # digests of nothing that is ever verified
+                other.append(hashlib.sha256(b"unrelated %d %d" % (i, len(other))).hexdigest())
             lists = [other]
-            if own:
-                lists += [[own], other + [own]]
+            if own:                     # the play's own digest alone, last, first and in the middle
+                lists += [[own], other + [own], [own] + other, [other[0], own, other[1]]]
             for j, rev in enumerate(lists):
                 ev = observe(nd, builds[(i // every + j) % len(builds)], "verify", rev, frng)
                 ev["p"] = i + 1
